@@ -1,4 +1,8 @@
 """C08 -- array, list and map element rules are enforced on every container type (engine K)."""
+import re
+
+import z3
+
 import ksupport
 import mir
 import native
@@ -34,3 +38,34 @@ def check(run):
             run.violated('check_containers closure calls check_container on its node', 'T', 'check-containers-closure', {'detail': detail}, True)
     except mir.Unsupported as e:
         run.inconclusive('check_containers closure', 'T', str(e))
+    # check_containers is nothing but that walk: no diagnostic is added, removed or rewritten before / after it
+    try:
+        title = 'check_containers consists of the walk alone: on every path the only call is walk_types with that closure - nothing filters, removes or rewrites the diagnostics afterwards'
+        fs = [g for g in S.prog.fns if re.search(r'(^|::)validation::check_containers$', g.name) and '::verif' not in g.name]
+        cl = [g for g in S.prog.fns if re.search(r'(^|::)check_containers::\{closure#0\}$', g.name)]
+        if len(fs) != 1 or len(cl) != 1:
+            raise mir.Unsupported('check_containers: %d / closure: %d candidates' % (len(fs), len(cl)))
+        bad, n = [], 0
+        for pc, ev in mir.cfg_paths(fs[0]):
+            s = z3.Solver(); s.add(*pc)
+            if s.check() != z3.sat:
+                continue
+            n += 1
+            calls = [c for (_b, c, _a, _d) in ev if c != '=']
+            if len(calls) != 1 or not re.search(r'walk_types::<', calls[0]):
+                bad.append('calls on a path of check_containers: %s' % [c.split('::')[-1][:30] for c in calls][:6])
+        others = [g.name for g in S.prog.fns if g.name.startswith(fs[0].name + '::{closure') and g is not cl[0]]
+        if others:
+            bad.append('check_containers has further closures: %s' % [o[-30:] for o in others])
+        # the closure: check_container(node, diagnostics) and nothing else that touches the diagnostics
+        for pc, ev in mir.cfg_paths(cl[0]):
+            calls = [c for (_b, c, _a, _d) in ev if c != '=']
+            if len(calls) != 1 or not re.search(r'(^|::)check_container$', calls[0]):
+                bad.append('calls in the per-node closure: %s' % [c.split('::')[-1][:30] for c in calls][:6])
+        if bad:
+            nb = native.sweep_c08()[1]
+            run.violated(title, 'M', 'check-containers-not-just-the-walk', {'detail': bad[:3], 'native': nb[:1]}, bool(nb), detail=bad[0])
+        else:
+            run.holds(title, 'M', queries=n, bound='all feasible CFG paths of check_containers and of its closure')
+    except mir.Unsupported as e:
+        run.inconclusive('shape of check_containers', 'M', str(e))
